@@ -48,9 +48,11 @@ where
         let to = to.min(stored_len);
         #[cfg(anydb_verif)]
         let pages = crate::verif::TapPages(pages);
+        // Lock order: page index before mmap (see ReadWriteCompressedVec::read_into_at).
+        let pages = pages.read();
         Self {
             reader: region.create_reader(),
-            pages: pages.read(),
+            pages,
             page_buf: Vec::with_capacity(Self::PER_PAGE),
             page_buf_idx: Self::NO_PAGE,
             pos: from,
